@@ -318,7 +318,9 @@ type Result struct {
 	ClientLog, ServerLog *tls.ServerHandshake
 	Transcript           []Chunk
 	ClientEKM, ServerEKM []byte
-	AppOK                bool // application data echoed both ways after the handshake
+	AppOK                bool  // application data echoed both ways after the handshake
+	ClientAppErr         error // first error of the client's application data exchange
+	ServerAppErr         error
 	ClientConn           *tls.Conn
 }
 
@@ -379,6 +381,7 @@ func Run(ccfg, scfg *tls.Config, opt Options) *Result {
 		}
 		buf := make([]byte, 5)
 		if _, err := io.ReadFull(sv, buf); err != nil {
+			r.ServerAppErr = err
 			se.Close()
 			return
 		}
@@ -386,6 +389,7 @@ func Run(ccfg, scfg *tls.Config, opt Options) *Result {
 			buf[i] ^= 0x55
 		}
 		if _, err := sv.Write(buf); err != nil {
+			r.ServerAppErr = err
 			se.Close()
 		}
 	}()
@@ -402,11 +406,13 @@ func Run(ccfg, scfg *tls.Config, opt Options) *Result {
 		}
 		msg := []byte("hello")
 		if _, err := cl.Write(msg); err != nil {
+			r.ClientAppErr = err
 			ce.Close()
 			return
 		}
 		buf := make([]byte, 5)
 		if _, err := io.ReadFull(cl, buf); err != nil {
+			r.ClientAppErr = err
 			ce.Close()
 			return
 		}
